@@ -4,7 +4,8 @@
 From EG Require Import Base.Prelude Model.Geometry Model.Sectormodel Proofs.Geometry Proofs.Sectormodel.
 From Coq Require Import Sorting.Sorted.
 
-(* points() = filter contains over the row-major points of the bounding box: no range hypothesis needed *)
+(* points() = filter contains over the row-major points of the bounding box.  No range hypothesis in the unbounded-Z
+   model; the code computes the same in i32 for every bounding box within +-2^29 and diameter < 2^15 (see below). *)
 Theorem C05_sector_points_spec : forall s,
   se_points s = filter (se_contains s) (points (se_bbox s)).
 Proof. exact sector_points_contains. Qed.
@@ -25,6 +26,24 @@ Proof. exact sector_points_sorted. Qed.
 
 Theorem C05_sector_points_nodup : forall s, rect_ok (se_bbox s) -> NoDup (se_points s).
 Proof. exact sector_points_nodup. Qed.
+
+(* The code's distance test is i32 (`length_squared`): in a release build it wraps for probes farther than 32767
+   doubled units from the centre (Sector (0,0) d=11 sweep 360 deg .contains((32773,5)) = true), with overflow checks
+   it panics.  For probes inside that range (probe_ok) the machine computation IS the model, so contains() is false
+   outside the bounding box; outside the range the clause is false for the code - machine-checked witness. *)
+Theorem C05_sector_contains_machine_eq_model : forall s p,
+  rect_ok (se_bbox s) -> probe_ok (se_to_circle s) p -> se_contains_i32 s p = se_contains s p.
+Proof. exact se_contains_i32_eq. Qed.
+
+Theorem C05_sector_contains_in_bbox_machine : forall s p,
+  rect_ok (se_bbox s) -> probe_ok (se_to_circle s) p ->
+  se_contains_i32 s p = true -> contains (se_bbox s) p = true.
+Proof. exact sector_contains_in_bbox_machine. Qed.
+
+Theorem C05_sector_far_probe_wraps :
+  exists c p, rect_ok (sc_bbox c) /\ ~ probe_ok c p /\
+    sc_contains_i32 c p = true /\ sc_contains c p = false /\ contains (sc_bbox c) p = false.
+Proof. exact sc_contains_far_probe_wraps. Qed.
 
 Example C05_sector_example :
   rect_ok (se_bbox (Sec (P (-3) 2) 9 (PS (P 511 887) (P 512 (-887)) OpIntersection))) /\
